@@ -122,8 +122,8 @@ RULES = {
 }
 
 HEAP_NOTE = ("Trusted: the harness (shadow graph, callbacks, tracking allocator), the read-only hooks, rustc. "
-             "Sampling, not proof: object graphs of <= 48 Node objects, programs of <= 40 operations plus epilogue; "
-             "the payload type is one fixed Node layout.")
+             "Sampling, not proof: object graphs of <= 48 Node objects, programs of <= 64 operations (<= 184 in profile 'long') plus epilogue, "
+             "built from single operations and generated idioms (clusters, cleaner bursts); the payload type is one fixed Node layout.")
 
 
 def claim(technique, text, note=HEAP_NOTE, engine="g1-proptest-heap"):
@@ -185,8 +185,8 @@ ENGINES_EXTRA = [
     {"name": "g2-small-scope-enumerator", "path": "/verif/harness/src/main.rs (rccv g2)", "serves_properties": ["C01", "C02", "C04", "C05", "C07", "C08", "C13"], "kind_free_text": "exhaustive enumeration of all operation sequences up to a depth over a 50-letter reduced alphabet (<=3 handles addressable), same interpreter and rules; seed-independent floor under the random search"},
     {"name": "g4-crash-point-enumerator", "path": "/verif/harness/src/main.rs (rccv g4)", "serves_properties": ["C07", "C14"], "kind_free_text": "enumerates every callback invocation index of every callback kind of each generated program as a panic point; sampled pairs; own delta-debugging shrinker"},
     {"name": "policy", "path": "/verif/harness/src/policy.rs (rccv policy)", "serves_properties": ["C15"], "kind_free_text": "proptest workloads for the automatic collection policy"},
-    {"name": "limits", "path": "/verif/harness/src/limits.rs (rccv limits)", "serves_properties": ["C16"], "kind_free_text": "proptest boundary walks at the counter limits"},
-    {"name": "containers", "path": "/verif/harness/src/containers.rs (rccv containers)", "serves_properties": ["C17"], "kind_free_text": "proptest over container shapes with probe leaves"},
+    {"name": "limits", "path": "/verif/harness/src/limits.rs (rccv limits)", "serves_properties": ["C04", "C08", "C09", "C16"], "kind_free_text": "proptest boundary walks at the counter limits, on live and on released allocations"},
+    {"name": "containers", "path": "/verif/harness/src/containers.rs (rccv containers)", "serves_properties": ["C17"], "kind_free_text": "proptest over container shapes with probe leaves, preceded by an enumerated grid of every composition of depth 1-3 of 15 wrappers"},
     {"name": "layout", "path": "/verif/harness/src/layout.rs (rccv layout)", "serves_properties": ["C03", "C13", "C20"], "kind_free_text": "proptest programs over a grid of payload layouts with the tracking allocator"},
     {"name": "derive", "path": "/verif/lib/derivegen.py", "serves_properties": ["C18"], "kind_free_text": "seeded grammar of type definitions -> generated crates compiled with the real derive macro"},
     {"name": "threads+teardown", "path": "/verif/harness/src/threads.rs (rccv threads | teardown)", "serves_properties": ["C19"], "kind_free_text": "proptest per-thread programs run concurrently vs solo; teardown scenarios in child processes"},
